@@ -203,7 +203,7 @@ class Check:
         self.coverage_extra = {}
         self.assumptions = []
         self.rule = ""
-        self.known = [k for k in load_known() if k.get("property") == pid]
+        self.known = [k for k in load_known() if pid == k.get("property") or pid in (k.get("properties") or [])]
         self.known_hit = {}
 
     def add_eval(self, n=1):
@@ -305,5 +305,7 @@ def finding_matches(entry, violation):
         return False
     tags = set(violation.get("tags") or [])
     if "tags_all" in m and not set(m["tags_all"]) <= tags:
+        return False
+    if "tags_any" in m and not (set(m["tags_any"]) & tags):
         return False
     return True
